@@ -74,6 +74,11 @@ def run_all() -> list[dict]:
     out.append(_prove("L8.base", [allT], f_cnt(m, 0) == 0))
     out.append(_prove("L8.step", [allT, 0 <= j, j < n, f_cnt(m, j) == j], f_cnt(m, j + 1) == j + 1))
     out.append(_prove("L8'.step", [allF, 0 <= j, j < n, f_cnt(m, j) == 0], f_cnt(m, j + 1) == 0))
+    # L9 (congruence): m, C agree on [0,k) => cnt(m,k) = cnt(C,k)   (induction on k; C reused as the second array)
+    agree = lambda x: z3.ForAll([i], z3.Implies(z3.And(0 <= i, i < x), z3.Select(m, i) == z3.Select(C, i)))  # noqa: E731
+    L9 = lambda x: z3.Implies(agree(x), f_cnt(m, x) == f_cnt(C, x))  # noqa: E731
+    out.append(_prove("L9.base", [], L9(z3.IntVal(0))))
+    out.append(_prove("L9.step", [j >= 0, L9(j)], L9(j + 1)))
     # M1 (mixed-radix step): l>=0, d>0, t>0  =>  ((l div t) mod d)*t + l mod t = l mod (d*t)
     l, d, t = z3.Ints("lm_l lm_d lm_t")
     out.append(_prove("M1.mixed-radix-step", [l >= 0, d > 0, t > 0],
